@@ -37,7 +37,7 @@ class Gen:
         self.order = ["g"]
         self.txdef = {}            # tx name -> op (for copies)
         self.n = 0
-        self.opts = dict(p_tx=0.7, max_tx=3, p_copy=0.0, p_same_cb=0.0, p_fork=0.4, p_unusual=0.15, max_height=None,
+        self.opts = dict(p_tx=0.7, max_tx=3, p_copy=0.0, p_same_cb=0.0, p_fork=0.4, p_unusual=0.15, max_height=None, zero_rewards=False,
                          prefix="", dts=None)
         self.opts.update(opts)
 
@@ -97,11 +97,18 @@ class Gen:
         parts.append(rest)
         return parts
 
-    def honest_tx(self, label, txi, avail):
-        """avail: list of (ref, (value, key)) spendable and unused in this block; consumes from it"""
+    def honest_tx(self, label, txi, avail, contested=()):
+        """avail: list of (ref, (value, key)) spendable and unused in this block; consumes from it.  `contested`: outputs
+        that a DIFFERENT transaction spends on another branch -- preferred half of the time, so that competing branches
+        hold conflicting spends of the same output (each valid on its own branch)."""
         n_in = min(len(avail), self.r.choice([1, 1, 1, 2, 2, 3]))
         ins = []
         for _ in range(n_in):
+            hot = [j for j, a in enumerate(avail) if a[0] in contested]
+            if hot and self.r.random() < 0.5:
+                ins.append(avail.pop(self.r.choice(hot)))
+                self.conflicting_spends = getattr(self, "conflicting_spends", 0) + 1
+                continue
             ins.append(avail.pop(self.r.randrange(len(avail))))
         total = sum(v for _, (v, _k) in ins)
         fmode = self.r.randrange(5)
@@ -139,7 +146,8 @@ class Gen:
                     continue
             if not avail:
                 break
-            t, fee = self.honest_tx(label, len(op["txs"]) + 1, avail)
+            contested = {tuple(i) for (d, _f, home) in self.txdef.values() if home not in p.chain for i in d["ins"]}
+            t, fee = self.honest_tx(label, len(op["txs"]) + 1, avail, contested)
             op["txs"].append(t)
             fees += fee
         if self.opts["p_same_cb"] and self.r.random() < self.opts["p_same_cb"]:
@@ -148,9 +156,13 @@ class Gen:
                 s = self.r.choice(sibs)
                 op["miner"], op["cbdata"] = s.miner, s.cbdata
         if self.r.random() < self.opts["p_unusual"]:
-            u = self.r.randrange(4)
-            if u == 0:
-                op["reward"] = {"shape": self.r.choice(["less", "split", "none"])}
+            u = self.r.randrange(6)
+            if u in (0, 4, 5):
+                # legal but unusual rewards: less than allowed, several outputs, no output at all, outputs worth nothing
+                shapes = ["less", "split", "none", "many"]
+                if self.opts.get("zero_rewards"):        # outputs worth nothing exist only where the check's own model copes with them
+                    shapes += ["zero_extra", "zero_only", "zero_extra"]
+                op["reward"] = {"shape": self.r.choice(shapes)}
             elif u == 1:
                 op["now_off"] = -30                      # timestamp exactly 30 s ahead of the validator's clock: legal
             elif u == 2:
@@ -200,6 +212,16 @@ class Gen:
             u[(label + ".0", 1)] = (value - value // 3, (m + 1) % N_KEYS)
         elif shape == "less":
             u[(label + ".0", 0)] = (value // 2, m)
+        elif shape == "zero_extra":
+            u[(label + ".0", 0)] = (value, m)
+            u[(label + ".0", 1)] = (0, (m + 1) % N_KEYS)
+        elif shape == "zero_only":
+            u[(label + ".0", 0)] = (0, m)
+        elif shape == "many":
+            q = value // 5
+            for j in range(4):
+                u[(label + ".0", j)] = (q, (m + j) % N_KEYS)
+            u[(label + ".0", 4)] = (value - 4 * q, m)
         ts = p.ts + op["dt"]
         n = Lbl(label, p.label, height, ts, self.target_at(p, ts), u, p.chain + (label,), names, len(self.order))
         n.miner, n.cbdata = op["miner"], op.get("cbdata", label)
